@@ -614,8 +614,12 @@ def planner_run_oracle(prop, run, starts, finishes, not_ready):
     if prop in ("C10", "C11"):
         yield from planner_decision_oracle(prop, run)
     if prop == "C12":
-        # (1) what is executed is the LAST decision: remaining time at the start = runtime of the strategy of the last
-        # decision for the task (fuzzed upwards by at most the variance), completion = start + that
+        # (1) what is executed is the LAST decision: on the pool / worker it names, remaining time at the start = runtime
+        # of the strategy of the last decision for the task (fuzzed upwards by at most the variance), completion = start + that
+        placed_on = {}
+        for e in mon:
+            if e["ev"] == "place":
+                placed_on[e["t"]] = tuple(e["w"])
         for t, evs in starts.items():
             e = evs[0]
             c = carried.get(t)
@@ -623,6 +627,9 @@ def planner_run_oracle(prop, run, starts, finishes, not_ready):
                 yield (f"C12 task-started-without-a-standing-decision planner={name}", {"start": e})
                 continue
             k, dtime, p_ = c
+            at = placed_on.get(t)
+            if at is not None and (at[0] != p_["pool"] or (p_["worker"] is not None and at[1] != p_["worker"])):
+                yield (f"C12 started-elsewhere-than-the-last-decision-named planner={name}", {"task": t, "placed_on": list(at), "decision": k, "decided_at": dtime, "decided": p_})
             rt = p_["strat"]["rt"]
             hi = math.ceil(rt * (1 + variance / 100.0))
             if not (rt <= e["remaining"] <= hi):
